@@ -111,6 +111,7 @@ struct pfx {
     struct pfx_probe *probes[PFX_MAX_PROBES];
     struct pfx_sink *sinks[PFX_MAX_SINKS];
     unsigned root_unhandled;
+    unsigned root_provide_requests;    /* provide_request events that no probe of the chain answered (they reached the root probe) */
     char msg[512];
     /* optional: called when a pipe watched by recording probe `probe_id` throws need_output (an application that plumbs
      * lazily answers by calling upipe_set_output); return UBASE_ERR_UNHANDLED to let the event go on */
